@@ -220,7 +220,7 @@ func runCodec(script, outPath string) {
 	gob.Register(map[string]interface{}{})
 	cs := &codecStore{}
 	var prevDirect, prevCopy []byte
-	sessions.Persistence = cs
+	sessions.Persistence = viaExtendable(cs)
 	in, err := os.Open(script)
 	if err != nil {
 		fatal("%v", err)
